@@ -3,6 +3,7 @@
 CONSTANT Fam = "v3"
 CONSTANT Streams <- MCStreams
 CONSTANT Kinds <- MCKinds
+CONSTANT EmitStreams = FALSE
 SPECIFICATION Spec
 INVARIANT TypeOK ScheduleIndependent EofMeansTruncated FailKeepsKind PendingOnlyIfTransportDid ConsumedIsReported AsksWithinFrame BufferDiscipline NoUninitExposed HeaderStateIsPrefix LenientAgrees Witness
 PROPERTY AbsSpec
